@@ -9,7 +9,7 @@ out=$(mktemp -d /tmp/seedout_XXXX)
 trap 'git -C /repo worktree remove --force "$wt" 2>/dev/null; rm -rf "$wt" "$out"' EXIT
 for s in "${seeds[@]}"; do
   prop=$(python3 -c "import json;print(json.load(open('seeded/$s/meta.json'))['property'])")
-  git -C "$wt" checkout -q -- . ; git -C "$wt" clean -fdq
+  git -C "$wt" reset -q --hard HEAD; git -C "$wt" clean -fdq
   if ! git -C "$wt" apply "$PWD/seeded/$s/patch.diff" 2>/dev/null; then
      if ! git -C "$wt" apply -3 "$PWD/seeded/$s/patch.diff" 2>/dev/null; then echo "SEED $s prop=$prop: patch does not apply on the current tree"; continue; fi
   fi
